@@ -828,6 +828,46 @@ func (e *Env) callSpec(t ECall) Val {
 	case "live": // reference is an allocated object in the current state (below the allocation counter)
 		v := e.eval(t.Args[0])
 		return mathBool(fmt.Sprintf("(< %s %s)", refTerm(v), e.st.alloc))
+	case "keys_subset_len": // axiom of the map model (finite sets): dom(a) ⊆ dom(b) ==> len(a) <= len(b); same key type
+		a, b := e.eval(t.Args[0]), e.eval(t.Args[1])
+		ma, ok1 := types.Unalias(a.Typ).Underlying().(*types.Map)
+		mb, ok2 := types.Unalias(b.Typ).Underlying().(*types.Map)
+		if !ok1 || !ok2 || vc.sortOf(ma.Key()) != vc.sortOf(mb.Key()) {
+			unsup("spec: keys_subset_len needs two maps with the same key type")
+		}
+		ks := vc.sortOf(ma.Key())
+		da := vc.comp(e.st, mapDomComp(ma), fmt.Sprintf("(Array Int (Array %s Bool))", ks))
+		db := vc.comp(e.st, mapDomComp(mb), fmt.Sprintf("(Array Int (Array %s Bool))", ks))
+		ca := vc.comp(e.st, mapCardComp(ma), "(Array Int Int)")
+		cb := vc.comp(e.st, mapCardComp(mb), "(Array Int Int)")
+		vc.assumed["map model: a map whose keys all belong to another map has no more entries than it (finite-set cardinality axiom, instantiated by keys_subset_len)"] = true
+		k := vc.fresh("k")
+		la := fmt.Sprintf("(ite (= %s 0) 0 (select %s %s))", a.T, ca, a.T)
+		lb := fmt.Sprintf("(ite (= %s 0) 0 (select %s %s))", b.T, cb, b.T)
+		ina := fmt.Sprintf("(and (not (= %s 0)) (select (select %s %s) %s))", a.T, da, a.T, k)
+		inb := fmt.Sprintf("(and (not (= %s 0)) (select (select %s %s) %s))", b.T, db, b.T, k)
+		return mathBool(fmt.Sprintf("(and (>= %s 0) (>= %s 0) (=> (forall ((%s %s)) (=> %s %s)) (<= %s %s)))", la, lb, k, ks, ina, inb, la, lb))
+	case "keys_subset2_len": // axiom of the map model: dom(a) ⊆ dom(b) ∪ dom(c) ==> len(a) <= len(b) + len(c); same key type
+		a, b, c := e.eval(t.Args[0]), e.eval(t.Args[1]), e.eval(t.Args[2])
+		ma, ok1 := types.Unalias(a.Typ).Underlying().(*types.Map)
+		mb, ok2 := types.Unalias(b.Typ).Underlying().(*types.Map)
+		mc, ok3 := types.Unalias(c.Typ).Underlying().(*types.Map)
+		if !ok1 || !ok2 || !ok3 || vc.sortOf(ma.Key()) != vc.sortOf(mb.Key()) || vc.sortOf(ma.Key()) != vc.sortOf(mc.Key()) {
+			unsup("spec: keys_subset2_len needs three maps with the same key type")
+		}
+		ks := vc.sortOf(ma.Key())
+		vc.assumed["map model: a map whose keys all belong to one of two other maps has no more entries than the two together (finite-set cardinality axiom, instantiated by keys_subset2_len)"] = true
+		k := vc.fresh("k")
+		ln := func(v Val, m *types.Map) string {
+			cc := vc.comp(e.st, mapCardComp(m), "(Array Int Int)")
+			return fmt.Sprintf("(ite (= %s 0) 0 (select %s %s))", v.T, cc, v.T)
+		}
+		in := func(v Val, m *types.Map) string {
+			d := vc.comp(e.st, mapDomComp(m), fmt.Sprintf("(Array Int (Array %s Bool))", ks))
+			return fmt.Sprintf("(and (not (= %s 0)) (select (select %s %s) %s))", v.T, d, v.T, k)
+		}
+		la, lb, lc := ln(a, ma), ln(b, mb), ln(c, mc)
+		return mathBool(fmt.Sprintf("(and (>= %s 0) (>= %s 0) (>= %s 0) (=> (forall ((%s %s)) (=> %s (or %s %s))) (<= %s (+ %s %s))))", la, lb, lc, k, ks, in(a, ma), in(b, mb), in(c, mc), la, lb, lc))
 	case "fresh": // reference allocated during the call
 		v := e.eval(t.Args[0])
 		return mathBool(fmt.Sprintf("(>= %s %s)", refTerm(v), e.old.alloc))
